@@ -1050,6 +1050,34 @@ def poseidon_hash(inputs):
 NAMES.update(poseidon_hash=poseidon_hash)
 
 
+def _aug(a, b, op):
+    """plain Python, shared verbatim by the API namespace and the twin: an augmented assignment through a second name.
+    Returns [the rebound name, the object that was aliased] - the latter must be what it was before"""
+    acc = a
+    if op == "+":
+        acc += b
+    elif op == "-":
+        acc -= b
+    elif op == "*":
+        acc *= b
+    elif op == "&":
+        acc &= b
+    elif op == "|":
+        acc |= b
+    elif op == "^":
+        acc ^= b
+    elif op == "<<":
+        acc <<= b
+    elif op == "//":
+        acc //= b
+    else:
+        raise ValueError(op)
+    return [acc, a]
+
+
+NAMES.update(_aug=_aug)
+
+
 def snark(fn):
     def wrapped(*args, **kwargs):
         if kwargs:
